@@ -160,7 +160,7 @@ func c05Run(w *core.W) {
 	}
 
 	// (5) the generator families of C02 (closure slice, context ids, free list, temp register across switches)
-	for _, f := range c02Families(false)[:1] {
+	for _, f := range c02Families(false)[:3] {
 		w.Family("generators:" + f.Name)
 		ok := true
 		n := 0
